@@ -1,6 +1,6 @@
 (* Extraction for the "c03" driver (C03: periodic Delaunay / Voronoi certificate checkers).
    ExtrOcamlBasic only; nat, positive, Z stay the extracted inductive types. *)
-From Koala Require Import Model.Lattice Model.Delaunay Model.VoronoiPost.
+From Koala Require Import Model.Lattice Model.Delaunay Model.VoronoiPost Model.VoronoiPeriodic.
 Require Extraction.
 Require Import ExtrOcamlBasic.
 Extraction "model.ml"
@@ -8,4 +8,6 @@ Extraction "model.ml"
   pts_in_cell tri_ok sides_paired area2_sum used_sides in_cell ref_point tri_pts pos_close nth_tri
   orient2d incircle cell_of
   (* Model/VoronoiPost.v: the post-processing of voronization.generate_lattice *)
-  mkVor padding_of generate_point_array post_stages edge_ends sorted_nodup reindex post_process post_process_sorted.
+  mkVor padding_of generate_point_array post_stages edge_ends sorted_nodup reindex post_process post_process_sorted
+  (* Model/VoronoiPeriodic.v: the hypotheses of post_correct, evaluated on scipy's record *)
+  post_hyps.
